@@ -153,7 +153,9 @@ def run_configs(P, cases, configs, wd, res, pid, label, max_cases=None, rng=None
 # list them they are reported as KNOWN-FINDING; for the other evaluation properties such a program simply cannot be
 # evaluated in any configuration and is left out (counted).
 KNOWN_CRASHES = {"Unable to ground parameter in materialisation-requiring aggregate body": "aggregate-param-grounding-assert",
-                 "has no member named 'lowerUpperRange_0": "compiled-eqrel-all-undef-existence-check"}
+                 "has no member named 'lowerUpperRange_0": "compiled-eqrel-all-undef-existence-check",
+                 # generator programs are grounded by construction: this diagnostic on one of them is the recorded defect
+                 "Error: Ungrounded variable": "grounded-clause-rejected-aggregate-injected-variable"}
 
 def known_crash(res, pid, text):
     from . import known
